@@ -738,6 +738,12 @@ class Interp(Ops):
         if self.spec_mode:
             raise Unsupported("await in a specification")
         if not isinstance(v, VCoro):
+            if isinstance(v, VObj):
+                c = self.find_contract_for_method(v.cls, "__await__")
+                if c is None:
+                    raise Unsupported(f"await of an object of class {v.cls} without contract {v.cls}.__await__")
+                self.await_count += 1
+                return self.apply_contract(c, {"self": v}, node, awaited=True)
             if isinstance(v, VOpaque):
                 # awaiting an opaque awaitable: arbitrary result, may raise any Exception, is a yield point
                 c = self.db.lookup("awaitable.__await__")
